@@ -69,6 +69,13 @@ Fixpoint find_index (nm : string) (ns : list (tnode (A := fgconfig))) (i : nat) 
   | nd :: t => if String.eqb (fg_name (n_cfg nd)) nm then Some i else find_index nm t (S i)
   end.
 
+(* all positions of the table whose group carries the name *)
+Fixpoint indices_named (nm : string) (ns : list (tnode (A := fgconfig))) (i : nat) : list nat :=
+  match ns with
+  | [] => []
+  | nd :: t => if String.eqb (fg_name (n_cfg nd)) nm then i :: indices_named nm t (S i) else indices_named nm t (S i)
+  end.
+
 Fixpoint strictly_increasing (l : list Z) : bool :=
   match l with
   | x :: ((y :: _) as t) => (x <? y) && strictly_increasing t
@@ -96,26 +103,27 @@ Section Check.
   Definition node_witnessedb (i : nat) (a : Z) : bool :=
     match cfg_at i with Some c => witnessedb w ic G c a | None => false end.
 
-  (* one returned entry *)
+  (* one returned entry.  The implementation reports a group NAME and nothing in FGConfig forbids two
+     groups with the same name: the entry is justified if SOME node carrying that name justifies it
+     (each entry is resolved on its own: a sum over entries, not a product over readings of the list) *)
+  Definition entry_node_okb (atoms : list Z) (i : nat) : bool :=
+    match cfg_at i with
+    | None => false
+    | Some c =>
+        anyb (fun a =>
+                if is_candidate g a then
+                  if witnessed_withb w ic G max_id c a atoms then
+                    negb (anyb (fun d => node_witnessedb d a)
+                               (if full then descendants (List.length ns) ns i else children_of ns i))
+                  else false
+                else false) atoms
+    end.
+
   Definition entry_okb (e : string * list Z) : bool :=
     let '(nm, atoms) := e in
-    match find_index nm ns 0 with
-    | None => false                                                    (* a configured name *)
-    | Some i =>
-        match cfg_at i with
-        | None => false
-        | Some c =>
-            strictly_increasing atoms                                   (* sorted, no repetition *)
-            && forallb (fun x => zmem x (nodes g)) atoms                (* atoms of the molecule as given *)
-            && anyb (fun a =>
-                       if is_candidate g a then
-                         if witnessed_withb w ic G max_id c a atoms then
-                           negb (anyb (fun d => node_witnessedb d a)
-                                      (if full then descendants (List.length ns) ns i else children_of ns i))
-                         else false
-                       else false) atoms
-        end
-    end.
+    strictly_increasing atoms                                   (* sorted, no repetition *)
+    && forallb (fun x => zmem x (nodes g)) atoms                (* atoms of the molecule as given *)
+    && anyb (entry_node_okb atoms) (indices_named nm ns 0).     (* a configured name, witnessed, most specific *)
 
   (* every hetero atom on which a root is witnessed is listed somewhere *)
   Definition covering_okb (r : groups) : bool :=
@@ -273,10 +281,12 @@ Definition HydSyms : Prop :=
     that position onto a group atom of D.  Broad form (the witness path is statically open): reading
     the pattern of a descendant D of a group N as a molecule, N is witnessed on a group atom u of D
     that is not C / H (a wildcard position listed in group_atoms counts) while no child of N on a
-    path to D is.  In both cases the descent of __find_best_node_rec can
+    path to D is.  Veto form: a group with a descendant D carries an anti-pattern that no anti-pattern of
+    D embeds into (the group can be vetoed on an atom on which D is still witnessed).  Wildcard-anchor form: a group with
+    descendants lists a wildcard position in group_atoms.  In all cases the descent of __find_best_node_rec can
     stop above D on an atom on which D is witnessed.  Decided by the kernel in every case file, so
     that a failing descendant clause is attributed to the finding only inside the class; the default
-    configuration is outside both forms (Props/C05.v, C05_default_outside_finding_class). *)
+    configuration is outside all forms (Props/C05.v, C05_default_outside_finding_class). *)
 Definition is_wildcard_sym (w : option string) (ic : bool) (s : option string) : bool :=
   match w, s with
   | Some w', Some s' => String.eqb (fold_case ic s') (fold_case ic w')
@@ -334,9 +344,26 @@ Definition path_open_classb (w : option string) (ic : bool) (tr : tree (A := fgc
             else false)
          (group_nodes d)).
 
-(* the class of KF-C05-descendant: the literal form or the broad form *)
+(* veto form: a group X with a descendant D has an anti-pattern that no anti-pattern of D embeds into: on a molecule
+   in which that anti-pattern sits on the anchoring atom, X is vetoed while D can still be witnessed, so the descent
+   stops above D *)
+Definition anti_open_classb (w : option string) (ic : bool) (tr : tree (A := fgconfig)) : bool :=
+  over_tree_pairs tr (fun _ x _ d =>
+    anyb (fun ap => negb (anyb (fun ap' => embeds_anyb w ic ap ap') (fg_anti d))) (fg_anti x)).
+
+(* wildcard-anchor form: a group that has descendants lists a WILDCARD position among its group_atoms, so it can be
+   anchored on an atom through the wildcard; whether a more specific group is reachable from there depends on the
+   molecule around that atom, not on the patterns *)
+Definition wildcard_anchor_classb (w : option string) (ic : bool) (tr : tree (A := fgconfig)) : bool :=
+  over_tree_pairs tr (fun _ x _ _ =>
+    anyb (fun p => is_wildcard_sym w ic (sym_of (fg_pattern x) p)) (group_nodes x)).
+
+(* the class of KF-C05-descendant: the literal form, the broad form, the veto form or the wildcard-anchor form *)
 Definition kf_descendant_classb (w : option string) (ic : bool) (tr : tree (A := fgconfig)) : bool :=
-  if partial_group_atoms_classb w ic tr then true else path_open_classb w ic tr.
+  if partial_group_atoms_classb w ic tr then true
+  else if path_open_classb w ic tr then true
+  else if anti_open_classb w ic tr then true
+  else wildcard_anchor_classb w ic tr.
 
 (* check "descendant_unattributed": the full descendant clause holds, or its failure is attributable
    to the known finding: the configuration is in the class AND the model reproduces the
